@@ -262,16 +262,52 @@ func c06build(s *sim.Sim, p *sim.Params) *c06sys {
 		}
 		return kind
 	}
+	// the declaration sits among the other things a route may declare: a query parameter with a
+	// default in front of it, a (generous) rate limit before or after it — under a window name
+	// the language knows or one it does not —, a statement in front of it
+	shape := s.Choose(sim.SWork, 8)
+	window := []string{"min", "hour", "week", "month", "fortnight"}[s.Choose(sim.SWork, 5)]
 	module := func(kindOf func(c06route) string) string {
 		var src strings.Builder
 		for _, rt := range c06routes {
 			fmt.Fprintf(&src, "@ %s %s {\n", rt.verb(), rt.path)
-			if k := kindOf(rt); k != "open" {
+			before, after := "", ""
+			switch shape {
+			case 1:
+				before = "  ? page: int = 1\n"
+			case 2:
+				before = "  ? q: str = \"none\"\n  ? page: int = 1 + 1\n"
+			case 3:
+				before = fmt.Sprintf("  + ratelimit(100000000/%s)\n", window)
+			case 4:
+				after = fmt.Sprintf("  + ratelimit(100000000/%s)\n", window)
+			case 5:
+				before = "  $ greeting = \"hello\"\n"
+			case 6:
+				before = "  ? page: int = 1\n"
+				after = fmt.Sprintf("  + ratelimit(100000000/%s)\n", window)
+			}
+			k := kindOf(rt)
+			if k == "open" {
+				// nothing to protect: the extras stay, the declaration is absent
+				src.WriteString(before)
+				src.WriteString(after)
+			} else {
+				src.WriteString(before)
 				fmt.Fprintf(&src, "  + auth(%s)\n", spell(k))
+				src.WriteString(after)
 			}
 			fmt.Fprintf(&src, "  > {marker: \"%s\"}\n}\n\n", rt.marker)
 		}
 		return src.String()
+	}
+	if shape != 0 && shape < 7 {
+		if _, err := simBuildServer(module(func(rt c06route) string { return rt.kind }), false); err != nil {
+			s.Probe("route-shape-not-accepted")
+			shape = 0
+		} else {
+			s.Probe("auth-among-other-declarations")
+		}
 	}
 	interp := s.Choose(sim.SWork, 2) == 1
 	if s.Choose(sim.SWork, 4) == 0 {
